@@ -187,11 +187,11 @@ theorem decode_soi (sv1 : Bool) (rest : List Nat) :
 /-! ## D4. the segments' contents -/
 
 theorem jllSOF3_ok (d : Dec) (P H W n : Nat) (cs : List Nat) (hP : 2 ≤ P ∧ P ≤ 16) (hW : 1 ≤ W) (hH : 1 ≤ H)
-    (hn : n = 1 ∨ n = 3) :
+    (hn : n = 1 ∨ n = 3) (hfirst : d.ncomp = 0 := by rfl) :
     jllSOF3 d (P :: H / 256 :: H % 256 :: W / 256 :: W % 256 :: n :: cs) =
       some { d with precision := P, height := H, width := W, ncomp := n } := by
   simp only [jllSOF3, Nat.div_add_mod']
-  rw [if_neg (by omega), if_neg (by omega), if_neg (by omega)]
+  rw [if_neg (by omega), if_neg (by omega), if_neg (by omega), if_neg (by omega)]
 
 theorem sv1SOF3_ok (d : Dec) (P H W n : Nat) (cs ids : List Nat) (hP : 2 ≤ P ∧ P ≤ 16) (hW : 1 ≤ W) (hH : 1 ≤ H)
     (hn : n = 1 ∨ n = 3) (hl : n * 3 ≤ cs.length) (hcs : sv1Comps n cs = some ids)
